@@ -1,6 +1,7 @@
 package harness
 
 import (
+	"math/big"
 	"bytes"
 	"context"
 	"fmt"
@@ -137,8 +138,19 @@ func drawC14Write(t *sim.Tape) *c14WriteCase {
 		wire = zstdCompress(cs.Content)
 	}
 	// content damage
-	damage := t.Pick(5, 1, 1, 1)
+	damage := t.Pick(5, 1, 1, 1, 1)
+	nameDigest := d
 	switch damage {
+	case 4: // the resource name states size zero with the hash of a non-empty object; no data is sent
+		if n > 0 {
+			nameDigest = digest.MustNewDigest("inst", remoteexecution.DigestFunction_SHA256, d.GetHashString(), 0)
+			wire = nil
+			if cs.Zstd {
+				wire = zstdCompress(nil)
+			}
+		} else {
+			damage = 0
+		}
 	case 1: // flip a byte of the uncompressed content
 		if n > 0 {
 			bad := append([]byte{}, cs.Content...)
@@ -166,7 +178,7 @@ func drawC14Write(t *sim.Tape) *c14WriteCase {
 		// speaks about the decompressed data only
 		cs.DontCare = true
 	}
-	name := d.GetByteStreamWritePath(uuid.MustParse("11111111-2222-3333-4444-555555555555"), compressor)
+	name := nameDigest.GetByteStreamWritePath(uuid.MustParse("11111111-2222-3333-4444-555555555555"), compressor)
 	// split into messages
 	cuts := sim.DrawCuts(t, len(wire), 3)
 	var parts [][]byte
@@ -259,7 +271,13 @@ func drawC14Write(t *sim.Tape) *c14WriteCase {
 			}
 		}
 	case 7:
-		cs.Msgs[0].ResourceName = []string{"inst/uploads/not-a-uuid/blobs/zz/1", "inst/blobs/abc/3", "", "inst/uploads/11111111-2222-3333-4444-555555555555/blobs/" + d.GetHashString() + "/-1"}[t.Choose(4)]
+		// (the last three: a size field that is no valid 64-bit integer but equals the content length modulo 2^64 or 2^32, or carries a sign)
+		wrap64 := new(big.Int).Add(new(big.Int).Lsh(big.NewInt(1+int64(t.Choose(3))), 64), big.NewInt(d.GetSizeBytes()))
+		cs.Msgs[0].ResourceName = []string{"inst/uploads/not-a-uuid/blobs/zz/1", "inst/blobs/abc/3", "", "inst/uploads/11111111-2222-3333-4444-555555555555/blobs/" + d.GetHashString() + "/-1",
+			"inst/uploads/11111111-2222-3333-4444-555555555555/blobs/" + d.GetHashString() + "/" + wrap64.String(),
+			"inst/uploads/11111111-2222-3333-4444-555555555555/blobs/" + d.GetHashString() + "/" + fmt.Sprintf("%d", uint64(1<<63)+uint64(d.GetSizeBytes())),
+			"inst/uploads/11111111-2222-3333-4444-555555555555/blobs/" + d.GetHashString() + "/+" + fmt.Sprintf("%d", d.GetSizeBytes()) + "x",
+		}[t.Choose(7)]
 		acceptable = false
 	}
 	if t.Chance(1, 8) {
@@ -489,13 +507,15 @@ func c14Batch(c *sim.RunCtx) {
 			type ent struct {
 				obj   int
 				valid bool
+				dp    *remoteexecution.Digest
 			}
 			var ents []ent
 			for i := 0; i < 1+t.Choose(4); i++ {
 				x := t.Choose(len(objs))
 				data := append([]byte{}, objs[x].Data...)
 				valid := true
-				switch t.Pick(5, 1, 1) {
+				dp := objs[x].D.GetProto()
+				switch t.Pick(5, 1, 1, 1, 1) {
 				case 1:
 					data = append(data, 0x77)
 					valid = false
@@ -504,9 +524,26 @@ func c14Batch(c *sim.RunCtx) {
 						data[0] ^= 1
 						valid = false
 					}
+				case 3:
+					// the digest of a non-empty object with its size field zeroed, no data:
+					// sizes agree, the hash is not that of the empty object
+					if len(data) > 0 {
+						dp = &remoteexecution.Digest{Hash: dp.Hash, SizeBytes: 0}
+						data = nil
+						valid = false
+					}
+				case 4:
+					// right size, hash of another object of the same size
+					for y := range objs {
+						if y != x && len(objs[y].Data) == len(data) && !bytes.Equal(objs[y].Data, data) {
+							dp = objs[y].D.GetProto()
+							valid = false
+							break
+						}
+					}
 				}
-				ents = append(ents, ent{x, valid})
-				req.Requests = append(req.Requests, &remoteexecution.BatchUpdateBlobsRequest_Request{Digest: objs[x].D.GetProto(), Data: data})
+				ents = append(ents, ent{x, valid, dp})
+				req.Requests = append(req.Requests, &remoteexecution.BatchUpdateBlobsRequest_Request{Digest: dp, Data: data})
 			}
 			resp, err := cas.BatchUpdateBlobs(ctx, req)
 			if err != nil {
@@ -520,7 +557,7 @@ func c14Batch(c *sim.RunCtx) {
 			validSeen := map[int]bool{}
 			for i, e := range ents {
 				code := codes.Code(resp.Responses[i].Status.GetCode())
-				if !proto.Equal(resp.Responses[i].Digest, objs[e.obj].D.GetProto()) {
+				if !proto.Equal(resp.Responses[i].Digest, e.dp) {
 					c.Fail("batch-update-response-order", "response %d carries another digest [%s]", i, desc)
 					return
 				}
